@@ -157,8 +157,11 @@ def c_tobs(pobs):
     for m in pobs["mutations"]:
         if m["method"] == "PATCH":
             b = copy.deepcopy(m["body"])
-            doc = json.loads(b["metadata"]["annotations"][B.ANNOTATION])
-            b["metadata"]["annotations"][B.ANNOTATION] = "<last-applied>"
+            try:
+                doc = json.loads(b["metadata"]["annotations"][B.ANNOTATION])
+                b["metadata"]["annotations"][B.ANNOTATION] = "<last-applied>"
+            except Exception:  # noqa: BLE001 - a body without a readable annotation: never what the model predicts
+                doc = None
             calls.append(f"(OPatch {cjson(b)} {cjson(doc)})")
         elif m["method"] == "DELETE":
             calls.append("ODelete")
@@ -200,7 +203,8 @@ def two_pass_term(case, va1, p1, stored2, p2):
 
 def delays(case):
     d = 30 if case["policy"] == "default" else case["delay"]
-    return {"PATCH": d, "DELETE": d, "POST": B.CREATE_DELAY}
+    cd = case.get("create_delay")
+    return {"PATCH": d, "DELETE": d, "POST": B.CREATE_DELAY if cd is None else (30 if cd == "default" else cd)}
 
 
 def pass_oracle(case, i, p, met_before):
@@ -229,7 +233,14 @@ def run_scenario(ctx: Ctx, case, cases, terms):
     import drivers
     import random
     drivers.reset_all()
-    spec = B.mk_spec(case["body"], case["policy"], case["delay"], case["owned"])
+    spec = B.mk_spec(case["body"], case["policy"], case["delay"], case["owned"], case.get("create_delay"))
+    if case.get("inputs"):
+        # parts of the target come from the inputs (e.g. metadata.annotations: =inputs.annotations)
+        for path, expr in case.get("from_inputs", []):
+            cur = spec["resource"]
+            for k in path[:-1]:
+                cur = cur.setdefault(k, {})
+            cur[path[-1]] = expr
     if case.get("create_overlay"):
         spec["create"]["overlay"] = copy.deepcopy(case["create_overlay"])
     p = drivers.run_async(drivers.prepare_rf("rf-c04", spec))
@@ -246,7 +257,7 @@ def run_scenario(ctx: Ctx, case, cases, terms):
     npass = case.get("passes", 3)
     for i in range(npass):
         before = B.stored(cl)
-        pobs = B.one_pass(fn, cl)
+        pobs = B.one_pass(fn, cl, case.get("inputs"))
         after = B.stored(cl)
         passes.append((before, pobs, after))
         ctx.count(f"flow:pass{i}:{pobs['outcome']['cls']}:{'+'.join(m['method'] for m in pobs['mutations']) or 'quiet'}")
@@ -266,6 +277,7 @@ def run_scenario(ctx: Ctx, case, cases, terms):
             tgt = pobs["validate_args"][0]["t"] if pobs["validate_args"] else B.materialise(case["body"])
             deco = B.decorate(rr, tgt, after, intfloat=False)
             deco.setdefault("metadata", {}).update({"uid": "uid-w1", "resourceVersion": str(10 + i)})
+            B.vary_owner_refs(rr, deco)
             cl.put(deco, plural=B.PLURAL)
     ctx.note_case({k: case.get(k) for k in ("body", "policy", "owned", "initial", "create_overlay")}, nontrivial=True)
     # correspondence: every pass that reached the comparator, and consecutive pairs
@@ -292,14 +304,19 @@ def gen_scenarios(ctx: Ctx):
     for bi in range(nb):
         body = B.flow_body(rng, rng.choice([1, 2, 2, 3]))
         owned = rng.random() < 0.7
-        delay = rng.choice([1, 5, 17, 60])
+        delay = rng.choice([0, 0, 1, 5, 17, 60])
+        create_delay = rng.choice([0, 0, None, 7, "default"])
         target = B.materialise(body)
         # a. create, then repeated passes (optionally with decoration in between / a create overlay)
         overlay = None
         if rng.random() < 0.4:
             overlay = {"spec": {"createdOnly": rng.choice([1, "x", True])}, "metadata": {"labels": {"phase": "new"}}}
+        from_inputs = {}
+        if rng.random() < 0.3:
+            # metadata.annotations evaluates to an EMPTY map that comes from the inputs
+            from_inputs = {"inputs": {"annotations": {}}, "from_inputs": [[["metadata", "annotations"], "=inputs.annotations"]]}
         yield {"kind": "scenario", "body": body, "create_overlay": overlay, "policy": rng.choice(["patch", "default", "recreate", "never"]),
-               "delay": delay, "owned": owned, "initial": None,
+               "delay": delay, "create_delay": create_delay, **from_inputs, "owned": owned, "initial": None,
                "decorate_seed": rng.randrange(1000) if rng.random() < 0.6 else None, "passes": 3}
         # b. any live object: patch, then quiet
         r = rng.random()
@@ -323,7 +340,7 @@ def gen_scenarios(ctx: Ctx):
                 continue
             met = B.decorate(rng, target, made, intfloat=False)
             met["metadata"].pop(B.OWNERS, None)
-            yield {"kind": "scenario", "body": body, "create_overlay": None,
+            yield {"kind": "scenario", "body": body, "create_overlay": None, "create_delay": create_delay,
                    "policy": ["never", "patch", "recreate"][(bi // 3) % 3], "delay": delay, "owned": True,
                    "initial": met, "decorate_seed": None, "passes": 3}
         if bi % 3 == 1 and B.L not in json.dumps(body):
@@ -334,6 +351,7 @@ def gen_scenarios(ctx: Ctx):
             met = B.decorate(rng, target, made, intfloat=False)
             met["metadata"].get("annotations", {}).pop(B.ANNOTATION, None)
             met["metadata"][B.OWNERS] = [dict(B.OWNER_REF)]
+            B.vary_owner_refs(rng, met)
             met["status"] = {"ready": True}
             yield {"kind": "scenario", "body": body, "create_overlay": None,
                    "policy": ["patch", "recreate", "never", "default"][(bi // 3) % 4], "delay": delay, "owned": owned,
@@ -347,7 +365,7 @@ def gen_scenarios(ctx: Ctx):
         if rng.random() < 0.3 and owned:
             initial["metadata"][B.OWNERS] = [dict(B.OWNER_REF)]
         yield {"kind": "scenario", "body": body, "create_overlay": None, "policy": rng.choice(["patch", "patch", "default", "recreate", "never"]),
-               "delay": delay, "owned": owned, "initial": initial, "decorate_seed": None, "passes": 3}
+               "delay": delay, "create_delay": create_delay, "owned": owned, "initial": initial, "decorate_seed": None, "passes": 3}
 
 
 # ---------------------------------------------------------------------------
